@@ -483,71 +483,145 @@ end BufferReuse
 
 /-! ## HPACK encode / write atomicity on one HTTP/2 connection (Model/HpackOrder.lean)
 
-`Gen.H2WriteLock`: for `MServerConn.writeHeaders`, `MClientConn.WriteHeaders` and the trailers of
-`MClientStream.writeDataAndTrailer`, the lock / unlock / deferred unlock / HPACK-encode / frame-write actions in source
-order (HEADERS and CONTINUATION writes alike), regenerated on each run. -/
+`Gen.H2WriteLock`: EVERY function of pkg/module/http2/mhttp2.go that uses an HPACK encoder or writes HEADERS /
+CONTINUATION frames (found again on each run, placed on the server or the client side by its receiver type), with its
+lock / unlock / deferred unlock / HPACK-encode / frame-write actions in source order; and the names of the functions of
+the other files of the package that use an encoder. -/
 section HpackWriteOrder
 open MosnVerif.Model.HpackOrder MosnVerif.Gen.H2WriteLock
 
-/-- in every regenerated function some mutex is held without interruption from before the first encode action until
-after the last frame write (CONTINUATIONs included): a call is ONE step of the connection -/
-theorem h2_write_lock_discipline : fns.all (fun f => atomicEncWrite f.acts) = true ∧
-    fns.all (fun f => units f.acts == [U.both]) = true := by decide
+/-- closed world of encoder users: outside mhttp2.go only the x/net code MOSN carries along touches an HPACK encoder
+(its serve-loop frame writers, `ClientConn.roundTrip` / `writeRequestBody` under `wmu`, and the encode helpers the
+M… functions call inside their critical sections); every function of mhttp2.go that does is in `fns`, and each of them
+both encodes and writes. A new user anywhere in the package changes one of the two lists. -/
+theorem h2_encoder_users :
+    stockUsers = ["ClientConn.encodeHeaders", "ClientConn.encodeTrailers", "ClientConn.roundTrip", "ClientConn.writeHeader",
+      "clientStream.writeRequestBody", "encKV", "encodeHeaders", "serverConn.processSetting",
+      "write100ContinueHeadersFrame.writeFrame", "writePushPromise.writeFrame", "writeResHeaders.writeFrame"] ∧
+    fns.map (·.name) = ["MServerConn.writeHeaders", "MClientConn.WriteHeaders", "MClientStream.writeDataAndTrailer"] ∧
+    fns.all (fun f => f.acts.contains .enc && f.acts.contains .wr) = true := by decide
+
+/-- per connection side (one encoder, one connection) there is ONE mutex that EVERY function of the side holds without
+interruption from before its first encode action until after its last frame write (CONTINUATIONs included); a mutex
+only some of them hold does not count -/
+theorem h2_write_lock_discipline :
+    (commonGuard serverFns).isEmpty = false ∧ (commonGuard clientFns).isEmpty = false ∧
+    fns.all (fun f => atomicEncWrite f.acts) = true := by decide
 
 /-- HPACK table discipline: whatever the table, a block decodes to the header list it was encoded from and leaves the
 decoder's table equal to the encoder's -/
 theorem hpack_block_sync (cap : Nat) (t : Model.HpackOrder.Table) (fs : List Field) :
     decBlock cap t (encBlock cap t fs).2 = some ((encBlock cap t fs).1, fs) := dec_enc_block cap fs t
 
-/-- **hpack_wire_order**: for each of the regenerated functions, ANY number of concurrent writers (one header block
-each, any header lists, any table capacity) and EVERY interleaving: a peer decoding the blocks in wire order with one
-table reconstructs, block by block, exactly (stream, header list) as encoded — every decoded pair is the pair of one of
-the writers —, the tables agree, and no encoded block is left unwritten. -/
-theorem hpack_wire_order (f : Fn) (hf : f ∈ fns) (cap : Nat) (reqs : List (Nat × List Field)) (sched : List Nat) :
-    decAll cap [] ((Sys.start cap reqs (units f.acts)).run sched).wire =
-      some (((Sys.start cap reqs (units f.acts)).run sched).encT, ((Sys.start cap reqs (units f.acts)).run sched).sent) ∧
-    (∀ x ∈ ((Sys.start cap reqs (units f.acts)).run sched).sent, x ∈ reqs) ∧
-    ((Sys.start cap reqs (units f.acts)).run sched).pending = [] := by
-  have hu : units f.acts = [U.both] := by
-    have := (List.all_eq_true.mp h2_write_lock_discipline.2) f hf
-    simpa using this
-  rw [hu]
-  have hi := inv_run (inv_start cap reqs) sched
-  have hc := run_cap (Sys.start cap reqs [U.both]) sched
-  refine ⟨?_, ?_, hi.nopending⟩
-  · have h := dec_enc_all cap ((Sys.start cap reqs [U.both]).run sched).sent []
+/-- **hpack_wire_order**: on either connection side, ANY number of concurrent writers, each a call of ANY of the
+side's regenerated functions (request headers and trailers mixed), one header block each, any header lists, any table
+capacity, and EVERY interleaving the named mutexes allow (a writer is excluded only by writers holding a mutex of the
+same name): at most one block is between encode and write; the wire followed by that block is the encode order, so a
+peer decoding in wire order with one table reconstructs, block by block, exactly (stream, header list) as encoded —
+the decoded list is a prefix of the encode order, every pair is the pair of one of the writers —, and once nothing is
+in flight the tables agree. -/
+theorem hpack_wire_order (side : List Fn) (hside : side = serverFns ∨ side = clientFns)
+    (calls : List Fn) (hcalls : ∀ f ∈ calls, f ∈ side)
+    (cap : Nat) (reqs : List (Nat × List Field)) (sched : List Nat) :
+    let s := (Sys.start cap reqs (calls.map (fun f => heldAcross f.acts))).run sched
+    decAll cap [] (s.wire ++ s.inFlight) = some (s.encT, s.sent) ∧
+    (∃ t o, decAll cap [] s.wire = some (t, o) ∧ o <+: s.sent) ∧
+    (s.pending = [] → decAll cap [] s.wire = some (s.encT, s.sent)) ∧
+    (∀ x ∈ s.sent, x ∈ reqs) ∧ s.pending.length ≤ 1 := by
+  intro s
+  have hne : (commonGuard side).isEmpty = false := by
+    rcases hside with rfl | rfl
+    · exact h2_write_lock_discipline.1
+    · exact h2_write_lock_discipline.2.1
+  obtain ⟨m, hm⟩ : ∃ m, m ∈ commonGuard side := by
+    cases hc : commonGuard side with
+    | nil => simp [hc] at hne
+    | cons a r => exact ⟨a, by simp⟩
+  have hg : ∀ g ∈ calls.map (fun f => heldAcross f.acts), m ∈ g := by
+    intro g hg
+    obtain ⟨f, hf, rfl⟩ := List.mem_map.mp hg
+    exact commonGuard_mem hm f (hcalls f hf)
+  have hi : Inv m s := inv_run (inv_start m cap reqs _ hg) sched
+  have hc := run_cap (Sys.start cap reqs (calls.map (fun f => heldAcross f.acts))) sched
+  have hsync : decAll cap [] (s.wire ++ s.inFlight) = some (s.encT, s.sent) := by
+    have h := dec_enc_all cap s.sent []
     have hs := hi.sync
-    rw [hc.1] at hs
-    have hcap : (Sys.start cap reqs [U.both]).cap = cap := rfl
+    have hcap : s.cap = cap := hc.1
     rw [hcap] at hs
     rw [hs] at h
     exact h
+  refine ⟨hsync, ?_, ?_, ?_, ?_⟩
+  · obtain ⟨t1, o1, o2, h1, _, h3⟩ := decAll_append cap _ _ _ _ _ hsync
+    exact ⟨t1, o1, h1, ⟨o2, h3.symm⟩⟩
+  · intro hp
+    have : s.inFlight = [] := by simp [Sys.inFlight, hp]
+    rw [this, List.append_nil] at hsync
+    exact hsync
   · intro x hx
     have := hi.own x hx
     rw [hc.2] at this
     exact this
+  · rcases hi.pend with h1 | ⟨_, _, _, h1, _⟩ <;> simp [h1]
 
-/-! ### non-vacuity, and what the seeded change does -/
+/-! ### non-vacuity, and what the seeded changes do -/
 def p0 : Field := ("x-p0", "v0")
 def p1 : Field := ("x-p1", "v1")
 def p2 : Field := ("x-p2", "v2")
 def wreqs : List (Nat × List Field) := [(1, [("x-u0", "r0"), p1]), (3, [p2, ("x-u1", "r1")]), (5, [p0, p1, p2])]
+def guardsOf (fs : List Fn) : List (List String) := fs.map (fun f => heldAcross f.acts)
+-- the real guards: the server function holds mu; both client functions hold hmu (WriteHeaders also mu)
+example : guardsOf serverFns = [["mu"]] ∧ guardsOf clientFns = [["hmu", "mu"], ["hmu"]] ∧
+    commonGuard serverFns = ["mu"] ∧ commonGuard clientFns = ["hmu"] := by decide
 -- writer 2 warms the table, then writers 0 and 1 in either order: the peer sees what was sent
-example : (decAll 8 [] ((Sys.start 8 wreqs (units serverWriteHeaders.acts)).run [2, 1, 0]).wire).map (·.2) =
+example : (decAll 8 [] ((Sys.start 8 wreqs (guardsOf [serverWriteHeaders, serverWriteHeaders, serverWriteHeaders])).run
+      [2, 2, 1, 1, 0, 0]).wire).map (·.2) =
     some [(5, [p0, p1, p2]), (3, [p2, ("x-u1", "r1")]), (1, [("x-u0", "r0"), p1])] := by decide
--- the mutex released between encoding and writing: two steps per call ...
+-- client side, request headers (writers 0, 2) and trailers (writer 1) mixed; writer 1 tries to get between writer 0's
+-- encode and write and is excluded by hmu: its steps are lost until writer 0 has written
+def mixedRun : Sys :=
+  (Sys.start 8 wreqs (guardsOf [clientWriteHeaders, clientTrailers, clientWriteHeaders])).run [2, 2, 0, 1, 1, 0, 1, 1]
+example : mixedRun.wire.map (·.stream) = [5, 1, 3] ∧
+    (decAll 8 [] mixedRun.wire).map (·.2) = some [wreqs[2], wreqs[0], wreqs[1]] := by decide
+-- the mutex released between encoding and writing: no guard ...
 def leaky : List Act := [.lock "mu", .enc, .enc, .unlock "mu", .wr, .wr]
-example : atomicEncWrite leaky = false ∧ units leaky = [U.enc, U.wr] := by decide
+example : atomicEncWrite leaky = false ∧ heldAcross leaky = [] := by decide
 -- ... a lock taken again only around the write does not help either
 example : atomicEncWrite [.lock "mu", .enc, .unlock "mu", .lock "mu", .wr, .unlock "mu"] = false := by decide
 -- a trailing unlock after the last write is fine
-example : atomicEncWrite [.lock "mu", .enc, .wr, .wr, .unlock "mu"] = true := by decide
+example : heldAcross [.lock "mu", .enc, .wr, .wr, .unlock "mu"] = ["mu"] := by decide
+-- the server mutex released before the CONTINUATION frames: no guard, no common mutex
+example : commonGuard [⟨"MServerConn.writeHeaders", [.lock "mu", .enc, .enc, .wr, .unlock "mu", .wr]⟩] = [] := by decide
 -- writer 0 encodes, writer 1 encodes and writes, writer 0 writes: both streams SILENTLY get the other's pool value
 -- (x-p1 for x-p2 and vice versa): no decoding error, wrong header values
-example : (decAll 8 [] ((Sys.start 8 wreqs (units leaky)).run [2, 2, 0, 1, 1, 0]).wire).map (·.2) =
+example : (decAll 8 [] ((Sys.start 8 wreqs [heldAcross leaky, heldAcross leaky, heldAcross leaky]).run [2, 2, 0, 1, 1, 0]).wire).map (·.2) =
     some [(5, [p0, p1, p2]), (3, [p1, ("x-u1", "r1")]), (1, [("x-u0", "r0"), p2])] := by decide
 -- without a warm table the lagging decoder fails outright
-example : decAll 8 [] ((Sys.start 8 [(1, [p0]), (3, [p0])] (units leaky)).run [0, 1, 1, 0]).wire = none := by decide
+example : decAll 8 [] ((Sys.start 8 [(1, [p0]), (3, [p0])] [[], []]).run [0, 1, 1, 0]).wire = none := by decide
+
+/-- NEGATION WITNESS for "each function holds SOME mutex" (the seeded shape): WriteHeaders releases hmu after encoding
+and keeps only mu across the write; the trailers path holds only hmu. Each function on its own is atomic, the side has
+no common mutex, ... -/
+def seededWriteHeaders : Fn :=
+  ⟨"MClientConn.WriteHeaders", [.lock "mu", .deferUnlock "mu", .lock "hmu", .enc, .unlock "hmu", .wr]⟩
+example : atomicEncWrite seededWriteHeaders.acts = true ∧ atomicEncWrite clientTrailers.acts = true ∧
+    guardsOf [seededWriteHeaders, clientTrailers] = [["mu"], ["hmu"]] ∧
+    commonGuard [seededWriteHeaders, clientTrailers] = [] := by decide
+/-- ... and the schedule exists: stream 1's request warms the table; stream 5's request headers are encoded (inserting
+x-checksum), stream 3's trailers are encoded AFTER them (x-checksum as an index) and written BEFORE them: wire order
+3, 5 against encode order 5, 3, and the peer reads stream 3's trailers as `user-agent: go` -/
+def sreqs : List (Nat × List Field) :=
+  [(5, [(":path", "/b"), ("x-checksum", "abc123")]), (3, [("x-checksum", "abc123")]), (1, [("user-agent", "go")])]
+def seededRun : Sys :=
+  (Sys.start 8 sreqs (guardsOf [seededWriteHeaders, clientTrailers, seededWriteHeaders])).run [2, 2, 0, 1, 1, 0]
+example : seededRun.sent.map (·.1) = [1, 5, 3] ∧ seededRun.wire.map (·.stream) = [1, 3, 5] ∧
+    (decAll 8 [] seededRun.wire).map (·.2) =
+      some [(1, [("user-agent", "go")]), (3, [("user-agent", "go")]), (5, [(":path", "/b"), ("x-checksum", "abc123")])] := by
+  decide
+-- the same schedule with the real functions: the trailers' steps are excluded until the headers are on the wire
+def realRun : Sys :=
+  (Sys.start 8 sreqs (guardsOf [clientWriteHeaders, clientTrailers, clientWriteHeaders])).run [2, 2, 0, 1, 1, 0, 1, 1]
+example : realRun.wire.map (·.stream) = [1, 5, 3] ∧
+    (decAll 8 [] realRun.wire).map (·.2) = some [sreqs[2], sreqs[0], sreqs[1]] := by decide
 
 end HpackWriteOrder
 
